@@ -106,6 +106,12 @@ class Check(PropertyCheck):
                 if s.strip():
                     out.append(s + "\n" + "-" * k)
         out += [gen_text(self.rng, draw) for _ in range(n)]
+        # Unicode blanks and separators between label characters: they are blanks of one column, not line breaks
+        for _ in range(max(20, n // 10)):
+            k = self.rng.range(2, 8)
+            row = "".join(self.rng.choice("ab" + gen.UNI_SPACES + " ") for _ in range(k)).strip()
+            if row:
+                out.append(row + "\n" + self.rng.choice(["", "cd", "---", " x"]))
         out += [gen.zoo(self.rng, legend=False, tags=False) for _ in range(n // 5)]
         return out
 
